@@ -11,8 +11,9 @@ EXPLANATION = (
     "cycle of the pausing code's dispatch loop contains the command read; the command reader's retry loop reads a line "
     "per iteration; end of input maps to quit, which detaches the debugger. R4 is the panic ledger of these functions "
     "(see the PANIC engine; reported under this property when it concerns the stepping arms)."
-    ' R2 also: no None (no action yet) return of the dispatcher in front of the command read. R5: a loop that pulls from an iterator must observe its exhaustion (a next() result only compared with Some(x) is reported), and the None edge of a pull - next(), or a call of a source closure - must not lead back to the loop head through blocks that call nothing and assign no named variable.'
+    ' R2 also: no None (no action yet) return of the dispatcher in front of the command read. R5: a loop that pulls from an iterator must observe its exhaustion (a next() result only compared with Some(x) is reported), and the None edge of a pull - next(), or a call of a source closure - must not lead back to the loop head through blocks that call nothing and assign no named variable. R4 also covers the output layer the command arms print through (lace::output): write_str of the writers is infallible by construction (tactic), the remaining sites are reviewed or re-verified ledger entries.'
 )
+
 NOT_DECIDED = "termination of the debugged program itself; the constant in 'bounded by a constant times ...'"
 
 EXEC = "lace::runtime::RunState::execute"
@@ -335,7 +336,7 @@ def run(ctx):
             x = x[1]
         return x[0] in ("local", "arg") and x[2] in status_fields
     run_ledger(ctx, "C16.R4", "closed panic ledger of the run loop, the pausing code and the command arms", [rl.name, pz.name], floor=20,
-               only=lambda s: (s.fn.name.startswith("lace::debugger::") and "::command::" not in s.fn.name) or s.fn.name == rl.name,
+               only=lambda s: (s.fn.name.startswith("lace::debugger::") and "::command::" not in s.fn.name) or s.fn.name == rl.name or s.fn.name.startswith("lace::output::") or s.fn.name.startswith("lace::<output::"),
                conditional=[(stepper_decrement, "C10.R4", "the stepper's counter never holds a value whose decrement underflows (C10.R4: one-step outcome of every "
                              "counter value, rank of every initial counter)")])
 
